@@ -94,6 +94,10 @@ func (r *run) slice(fr *frame, instr ssa.Instruction, x, lo, hi, max value) valu
 		if lo == nil && hi == nil {
 			return sx_
 		}
+		if rec, ok := r.repeats[sx_.t]; ok && len(rec.lit) == 1 && sx_.sort == SStr {
+			// any substring of n copies of one byte is (h-l) copies of it
+			return r.newRepeat(rec.lit, sx("-", h, l), "slice of repeat")
+		}
 		return &sym{sx("str.substr", sx_.t, l, sx("-", h, l)), sx_.sort}
 	}
 	var Len, Cap int
